@@ -525,6 +525,14 @@ def build(P):
             lines = ["PROCEDURE Q(k : INTEGER)", "TYPE LE = (%s)" % ", ".join(names), "DECLARE v : LE", "v <- %s + k" % names[0], "OUTPUT v", "v <- v - 1", "OUTPUT v", "ENDPROCEDURE"]
             for k in range(-3, 6): lines.append("CALL Q(%d)" % k if k >= 0 else "CALL Q(- %d)" % -k)
             progs.append(Case(id="C19-local-%d" % n, prog=("\n".join(lines) + "\n").encode(), meta=dict(units=["local%d" % n])))
+        # a procedure-level enum may not reuse the NAME of a type that is visible globally (types are compared by name: the local values would pass for global ones)
+        for kind, head, tail, call in [("proc", "PROCEDURE Inner()", "ENDPROCEDURE", "CALL Inner()"), ("fn", "FUNCTION Inner() RETURNS INTEGER", "RETURN 0\nENDFUNCTION", "d <- Inner()")]:
+            for gdef in ["TYPE Colour = (Red, Green, Blue)", "TYPE Colour = ^INTEGER", "TYPE Colour\nDECLARE f : INTEGER\nENDTYPE"]:
+                for ldef in ["TYPE Colour = (Low, Medium, High)", "TYPE Colour = (Low)", "TYPE Colour = (Red, Green, Blue)"]:
+                    lines = [gdef, "TYPE Other = (Red2, Green2, Blue2)", "DECLARE g : Other", "g <- Green2", head, ldef, "DECLARE l : Colour", "OUTPUT \"inner \", l", tail, call, "OUTPUT \"after \", g", call]
+                    progs.append(Case(id="C19-redef-%s-%d" % (kind, len(progs)), prog=("\n".join(lines) + "\n").encode(), meta=dict(units=["redef%d" % len(progs)])))
+            lines = ["TYPE Colour = (Red, Green, Blue)", "DECLARE g : Colour", "g <- Green", "PROCEDURE Take(c : Colour)", "OUTPUT \"take \", c", "ENDPROCEDURE", head, "TYPE Colour = (Low, Medium, High)", "DECLARE l : Colour", "l <- Medium", "g <- l", "CALL Take(l)", "OUTPUT g = Medium", tail, call, "OUTPUT \"after \", g"]
+            progs.append(Case(id="C19-redef-%s-store" % kind, prog=("\n".join(lines) + "\n").encode(), meta=dict(units=["redefstore" + kind])))
         yield ("procedure-level", progs)
 
     def c19_oracle(c, r, m):
